@@ -51,6 +51,12 @@ pub fn run_c08(cx: &Ctx) -> i32 {
     let mut texts = space::texts(&alphabet, max_len);
     // 3- and 4-byte characters (how far an iterator steps after an empty match)
     texts.extend(space::texts(&['a', '€', '😀'], 2).into_iter().filter(|t| !t.bytes().all(|b| b == b'a')));
+    // one character for every UTF-8 lead-byte class not covered above (E0, ED, EF, F4)
+    for c in ['\u{e01}', '\u{d7ff}', '\u{fffd}', '\u{10ffff}'] {
+        texts.push(c.to_string());
+        texts.push(format!("a{}", c));
+        texts.push(format!("{}a", c));
+    }
     let tallies = par::run_workers(32, |_w, claimer| {
         engine::quiet_panics();
         engine::set_sweep_horizons(40_000, 5_000);
@@ -262,7 +268,7 @@ pub fn run_c08(cx: &Ctx) -> i32 {
         t,
         Finish {
             rule: format!(
-                "every pattern of {} (\\G and \\K at every position) x every text over {:?} up to length {} and every text over [a, euro sign, emoji] up to length 2; the real Matches iterator is driven to None (or to the horizon len+2) and polled twice more; (1) every pattern: strictly increasing, non-overlapping, start >= previous end, terminates, nothing after None/Err; (2) scoped patterns outside class F1: the whole sequence equals the iteration model over the reference matcher (skipped-empty-match flag for \\G included); (3) otherwise, without \\G: equals the model over the engine's own find_from_pos; error histories: the same iteration with backtrack limits 0,1,2 yields a prefix of the unlimited sequence, then at most one Err, then nothing; states = distinct (last_end,last_match) read from the iterator's Debug output after every next(); non-trivial = VM-compiled (pattern,text) whose reference iteration yields at least one match",
+                "every pattern of {} (\\G and \\K at every position) x every text over {:?} up to length {} and every text over [a, euro sign, emoji] up to length 2 and U+0E01 / U+D7FF / U+FFFD / U+10FFFF alone, after and before an a (every UTF-8 lead-byte class); the real Matches iterator is driven to None (or to the horizon len+2) and polled twice more; (1) every pattern: strictly increasing, non-overlapping, start >= previous end, terminates, nothing after None/Err; (2) scoped patterns outside class F1: the whole sequence equals the iteration model over the reference matcher (skipped-empty-match flag for \\G included); (3) otherwise, without \\G: equals the model over the engine's own find_from_pos; error histories: the same iteration with backtrack limits 0,1,2 yields a prefix of the unlimited sequence, then at most one Err, then nothing; states = distinct (last_end,last_match) read from the iterator's Debug output after every next(); non-trivial = VM-compiled (pattern,text) whose reference iteration yields at least one match",
                 space.describe(), alphabet, max_len
             ),
             exhaustive: true,
@@ -284,6 +290,12 @@ pub fn run_c10(cx: &Ctx) -> i32 {
     let mut texts = space::texts(&alphabet, max_len);
     // 3- and 4-byte characters (how far an iterator steps after an empty match)
     texts.extend(space::texts(&['a', '€', '😀'], 2).into_iter().filter(|t| !t.bytes().all(|b| b == b'a')));
+    // one character for every UTF-8 lead-byte class not covered above (E0, ED, EF, F4)
+    for c in ['\u{e01}', '\u{d7ff}', '\u{fffd}', '\u{10ffff}'] {
+        texts.push(c.to_string());
+        texts.push(format!("a{}", c));
+        texts.push(format!("{}a", c));
+    }
     let tallies = par::run_workers(32, |_w, claimer| {
         engine::quiet_panics();
         engine::set_sweep_horizons(40_000, 5_000);
@@ -414,7 +426,7 @@ pub fn run_c10(cx: &Ctx) -> i32 {
         t,
         Finish {
             rule: format!(
-                "every pattern of {} x every text over {:?} up to length {} and every text over [a, euro sign, emoji] up to length 2 x limits 0..5; split and splitn are driven to None and polled twice more (fusedness); oracle: pieces = gaps between consecutive find_iter matches (one more piece than matches), interleaving pieces and matched texts rebuilds the input byte for byte, splitn(n) = min(n, pieces) items: the first n-1 of split and the untouched remainder, n = 0 yields nothing; error histories (VM patterns under backtrack limits 0, 1, 2 whose find_iter ends in an Err): split still yields one more piece than there are matches - the gaps between the matches found, exactly one Err, then the rest of the text - and does not panic; non-trivial = (pattern,text) with at least one match",
+                "every pattern of {} x every text over {:?} up to length {} and every text over [a, euro sign, emoji] up to length 2 and U+0E01 / U+D7FF / U+FFFD / U+10FFFF alone, after and before an a (every UTF-8 lead-byte class) x limits 0..5; split and splitn are driven to None and polled twice more (fusedness); oracle: pieces = gaps between consecutive find_iter matches (one more piece than matches), interleaving pieces and matched texts rebuilds the input byte for byte, splitn(n) = min(n, pieces) items: the first n-1 of split and the untouched remainder, n = 0 yields nothing; error histories (VM patterns under backtrack limits 0, 1, 2 whose find_iter ends in an Err): split still yields one more piece than there are matches - the gaps between the matches found, exactly one Err, then the rest of the text - and does not panic; non-trivial = (pattern,text) with at least one match",
                 space.describe(), alphabet, max_len
             ),
             exhaustive: true,
@@ -436,6 +448,12 @@ pub fn run_c11(cx: &Ctx) -> i32 {
     let mut texts = space::texts(&alphabet, max_len);
     // 3- and 4-byte characters (how far an iterator steps after an empty match)
     texts.extend(space::texts(&['a', '€', '😀'], 2).into_iter().filter(|t| !t.bytes().all(|b| b == b'a')));
+    // one character for every UTF-8 lead-byte class not covered above (E0, ED, EF, F4)
+    for c in ['\u{e01}', '\u{d7ff}', '\u{fffd}', '\u{10ffff}'] {
+        texts.push(c.to_string());
+        texts.push(format!("a{}", c));
+        texts.push(format!("{}a", c));
+    }
     let templates: Vec<&str> = vec!["x", "$0", "$1", "${g1}", "$$", "<$0|$1>", "", "$é", "[$π]"];
     let tallies = par::run_workers(32, |_w, claimer| {
         engine::quiet_panics();
@@ -491,8 +509,13 @@ pub fn run_c11(cx: &Ctx) -> i32 {
                 if !matches.is_empty() {
                     t.nontrivial += 1;
                 }
-                for n in 0..=3usize {
+                // limits 0..3, and two limits far beyond any number of matches (a limit is an upper
+                // bound chosen by the caller, not a size)
+                for n in [0usize, 1, 2, 3, usize::MAX, 1usize << 59] {
                     for tpl in &templates {
+                        if n > 3 && *tpl != "x" && *tpl != "$0" {
+                            continue;
+                        }
                         t.evaluations += 1;
                         let exp = itermodel::replacen_model(text, &matches, n, |i| expandref::expand_default(tpl, &cap_model(text, &caps[i], &names)));
                         let got = engine::replacen_str(&re, text, n, tpl);
@@ -581,7 +604,7 @@ pub fn run_c11(cx: &Ctx) -> i32 {
         t,
         Finish {
             rule: format!(
-                "every pattern of {} (group 1 named g1 where the pattern has no references) x every text over {:?} up to length {} and every text over [a, euro sign, emoji] up to length 2 x limits 0..3 x replacers: templates {:?} as &str, &String and Cow, NoExpand, constant and identity closures; oracle: the first n matches of the crate's own captures_iter (all if n = 0) replaced by the reference expansion (frmc-core/src/expandref.rs), every other byte copied, Cow::Borrowed iff there is no match; fast path == slow path (template without $, NoExpand of the same string, closure returning it); with backtrack limits 0 and 1 the result is an Err, never a panic; non-trivial = (pattern,text) with at least one match",
+                "every pattern of {} (group 1 named g1 where the pattern has no references) x every text over {:?} up to length {} and every text over [a, euro sign, emoji] up to length 2 and U+0E01 / U+D7FF / U+FFFD / U+10FFFF alone, after and before an a (every UTF-8 lead-byte class) x limits 0..3, usize::MAX and 2^59 x replacers: templates {:?} as &str, &String and Cow, NoExpand, constant and identity closures; oracle: the first n matches of the crate's own captures_iter (all if n = 0) replaced by the reference expansion (frmc-core/src/expandref.rs), every other byte copied, Cow::Borrowed iff there is no match; fast path == slow path (template without $, NoExpand of the same string, closure returning it); with backtrack limits 0 and 1 the result is an Err, never a panic; non-trivial = (pattern,text) with at least one match",
                 space.describe(), alphabet, max_len, templates
             ),
             exhaustive: true,
